@@ -134,6 +134,7 @@ func init() {
 	addRule("C05", rule{name: "T-cond", run: ruleTCond})
 	addRule("C05", rule{name: "S-ops", run: ruleSOps})
 	addRule("C05", rule{name: "T-lock", run: ruleTLock})
+	addRule("C05", rule{name: "T-num2bin", run: ruleTNum2Bin})
 	addRule("C05", rule{name: "S-p2sh", run: ruleSP2SH})
 	addRule("C06", rule{name: "S-forkstrict", run: ruleSForkStrict})
 	addRule("C07", rule{name: "S-perscript", run: ruleSPerScript})
